@@ -96,10 +96,14 @@ impl Block {
         let mut aligned = rkyv::AlignedVec::with_capacity(meta_len);
         aligned.extend_from_slice(&meta_buffer[2..2 + meta_len]);
 
-        // SAFETY: `aligned` contains bytes we just read from our own file format.
-        // We bounded `meta_len` to PREFIX_META_SIZE and copy into an `AlignedVec`,
-        // which satisfies alignment requirements of rkyv.
-        let archived = unsafe { rkyv::archived_root::<Metadata>(&aligned[..]) };
+        // The bytes come from disk and may be damaged: validate the archive (bounds of the
+        // relative string pointer, UTF-8, root position) before touching it.
+        let archived = rkyv::check_archived_root::<Metadata>(&aligned[..]).map_err(|_| {
+            std::io::Error::new(
+                std::io::ErrorKind::InvalidData,
+                "corrupt entry header (metadata does not validate)",
+            )
+        })?;
         let meta: Metadata = archived.deserialize(&mut rkyv::Infallible).map_err(|_| {
             std::io::Error::new(
                 std::io::ErrorKind::InvalidData,
